@@ -628,8 +628,234 @@ pub fn ghost(full: bool) -> ChatScn {
     s
 }
 
+// ---------------------------------------------------------------------------
+// back-pressure: a client that stops reading its socket
+
+/// One back-pressure case: connection 0 (socket buffer `cap` bytes, a member of #c)
+/// sends `line` while it does not read; then the bystanders act.
+#[derive(Clone)]
+pub struct StallCase {
+    pub cap: usize,
+    pub line: String,
+}
+
+fn repeat_to_fit(verb: &str, item: &str, n: usize, tail: &str) -> String {
+    let mut items: Vec<String> = vec![];
+    let mut len = verb.len() + 1 + tail.len();
+    for _ in 0..n {
+        if len + item.len() + 1 > 1900 {
+            break;
+        }
+        len += item.len() + 1;
+        items.push(item.to_string());
+    }
+    format!("{} {}{}", verb, items.join(","), tail)
+}
+
+pub fn stall_cases(full: bool) -> Vec<StallCase> {
+    let mut lines: Vec<String> = vec![];
+    let sizes: Vec<usize> = if full { vec![1, 20, 150, 700] } else { vec![20, 700] };
+    for n in &sizes {
+        lines.push(repeat_to_fit("NAMES", "#c", *n, ""));
+        lines.push(repeat_to_fit("JOIN", "#d", *n, ""));
+        lines.push(repeat_to_fit("PART", "#nochan", *n, " :bye"));
+        lines.push(repeat_to_fit("WHOIS", "bob", *n, ""));
+        lines.push(repeat_to_fit("PRIVMSG", "ghost", *n, " :x"));
+        lines.push(repeat_to_fit("KICK #c", "ghost", *n, ""));
+        if full {
+            lines.push(repeat_to_fit("WHOWAS", "bob", *n, ""));
+            lines.push(repeat_to_fit("TOPIC", "#c", *n, ""));
+            lines.push(repeat_to_fit("LIST", "#c", *n, ""));
+            lines.push(repeat_to_fit("NOTICE", "#c", *n, " :x"));
+        }
+    }
+    for l in ["MOTD", "HELP", "HELP MODE", "INFO", "LIST", "WHO *", "WHO #c", "LUSERS", "MODE #c +b", "VERSION", "LINKS"] {
+        lines.push(l.to_string());
+    }
+    // at least one maximal input line must fit (the same buffer size serves both directions)
+    let caps: Vec<usize> = if full { vec![2560, 4096, 65536] } else { vec![2560, 16384] };
+    let mut out = vec![];
+    for cap in caps {
+        for l in &lines {
+            out.push(StallCase { cap, line: l.clone() });
+        }
+    }
+    out
+}
+
+fn canon_transcript(lines: &[String]) -> Vec<String> {
+    let mut v: Vec<String> = lines
+        .iter()
+        .map(|l| {
+            // member lists are printed in hash order
+            if l.contains(" 353 ") {
+                if let Some(pos) = l.rfind(" :") {
+                    let mut names: Vec<&str> = l[pos + 2..].split(' ').collect();
+                    names.sort();
+                    return format!("{} :{}", &l[..pos], names.join(" "));
+                }
+            }
+            // seconds since ... differ by nothing here (paused clock); keep the rest as is
+            l.clone()
+        })
+        .collect();
+    v.sort();
+    v
+}
+
+struct StallRun {
+    blocked: Vec<(usize, String)>,
+    actor_blocked: bool,
+    resumed: bool,
+    transcripts: Vec<Vec<String>>,
+    panics: Vec<String>,
+    bytes_to_actor: usize,
+}
+
+fn run_stall(case: &StallCase, stalled: bool) -> Result<StallRun, crate::world::MachineryError> {
+    let mut w = World::new(Cfg::default().main_config(), 3);
+    w.connect_cap(0, case.cap)?;
+    w.send(0, "NICK alice")?;
+    w.send(0, "USER au 8 * :Real au")?;
+    w.register(1, "bob", "bu")?;
+    w.register(2, "carol", "cu")?;
+    w.send(0, "JOIN #c")?;
+    w.send(1, "JOIN #c")?;
+    w.take_all();
+    let raw0 = w.conns[0].raw.len();
+    w.conns[0].stalled = stalled;
+    let actor_blocked = w.send_observe_block(0, &case.line)?;
+    let mut blocked = vec![];
+    for (slot, l) in [(1usize, "PRIVMSG #c :one"), (2, "JOIN #p"), (1, "JOIN #p"), (2, "PING t"), (1, "TOPIC #c :t"), (2, "NICK caro"), (1, "PRIVMSG alice :two"), (2, "NAMES #c")] {
+        if w.send_observe_block(slot, l)? {
+            blocked.push((slot, l.to_string()));
+        }
+    }
+    let resumed = w.resume(0)?;
+    for i in 1..3 {
+        if w.conns[i].blocked {
+            // the bystander runs on once the stalled reader is gone: keep its transcript comparable
+            let _ = w.resume(i)?;
+        }
+    }
+    let transcripts: Vec<Vec<String>> = w.take_all().iter().map(|t| canon_transcript(t)).collect();
+    let mut panics = vec![];
+    for (i, c) in w.conns.iter().enumerate() {
+        if let Life::Panicked(msg) = &c.life {
+            panics.push(format!("connection {} aborted: {}", i, msg));
+        }
+    }
+    let bytes_to_actor = w.conns[0].raw.len() - raw0;
+    Ok(StallRun { blocked, actor_blocked, resumed, transcripts, panics, bytes_to_actor })
+}
+
+pub fn stall_case_findings(case: &StallCase) -> (Vec<Finding>, bool, usize) {
+    let mk = |sig: &str, detail: String| Finding { sig: sig.to_string(), detail };
+    let control = match run_stall(case, false) {
+        Ok(r) => r,
+        Err(e) => return (vec![mk("machinery", e.0)], false, 0),
+    };
+    let run = match run_stall(case, true) {
+        Ok(r) => r,
+        Err(e) => return (vec![mk("machinery", e.0)], false, 0),
+    };
+    let mut f = vec![];
+    if control.actor_blocked || !control.blocked.is_empty() {
+        f.push(mk("machinery", format!("control run (everybody reads) blocked: actor {} bystanders {:?}", control.actor_blocked, control.blocked)));
+    }
+    for p in run.panics.iter().chain(control.panics.iter()) {
+        f.push(mk("panic", p.clone()));
+    }
+    for (slot, l) in &run.blocked {
+        f.push(mk("stalled-reader:bystander-starved", format!("while connection 0 does not read the {} bytes answering {:?} (socket buffer {}), connection {} gets no answer to {:?}: its task waits for something the stalled connection holds", control.bytes_to_actor, short(&case.line), case.cap, slot, l)));
+    }
+    if !run.resumed {
+        f.push(mk("stalled-reader:no-recovery", format!("connection 0 reads again after {:?} but its task never returns to serving it", short(&case.line))));
+    }
+    if run.blocked.is_empty() && run.resumed {
+        for i in 0..3 {
+            if run.transcripts[i] != control.transcripts[i] {
+                let missing: Vec<&String> = control.transcripts[i].iter().filter(|l| !run.transcripts[i].contains(l)).take(3).collect();
+                let extra: Vec<&String> = run.transcripts[i].iter().filter(|l| !control.transcripts[i].contains(l)).take(3).collect();
+                f.push(mk("stalled-reader:deprived", format!("connection {} receives different lines when connection 0 pauses reading during {:?}: missing {:?} extra {:?}", i, short(&case.line), missing, extra)));
+            }
+        }
+    }
+    (f, run.actor_blocked, control.bytes_to_actor)
+}
+
+fn short(l: &str) -> String {
+    if l.len() > 60 {
+        format!("{}... ({} bytes)", &l[..50], l.len())
+    } else {
+        l.to_string()
+    }
+}
+
+pub fn stall_part(quick: bool) -> crate::run::PartResult {
+    use crate::bfs::Violation;
+    use crate::run::PartResult;
+    let t0 = std::time::Instant::now();
+    let name = "fun:c05-stalled-reader";
+    let mut r = PartResult::new(name, "E-FUN");
+    let cases = stall_cases(!quick);
+    let n = cases.len() as u64;
+    let res = crate::fun::par_ranges(n, crate::props::threads(), 4, |a, b| {
+        let mut viol = vec![];
+        let mut blocked = 0u64;
+        let mut maxb = 0usize;
+        for i in a..b {
+            let c = &cases[i as usize];
+            let (fs, ab, bytes) = stall_case_findings(c);
+            if ab {
+                blocked += 1;
+            }
+            maxb = maxb.max(bytes);
+            for f in fs {
+                viol.push(Violation { scenario: name.to_string(), sig: f.sig, detail: f.detail, history: vec![], transcript: vec![serde_json::json!({"cap": c.cap, "line": c.line}).to_string()] });
+            }
+        }
+        (viol, blocked, maxb)
+    });
+    let mut blocked = 0;
+    let mut maxb = 0;
+    for (v, b, m) in res {
+        r.violations.extend(v);
+        blocked += b;
+        maxb = maxb.max(m);
+    }
+    r.violations.truncate(40);
+    r.evaluations = 2 * n;
+    r.states = n;
+    r.transitions = 2 * n * 9;
+    r.distinct = blocked;
+    r.traces = 2 * n;
+    r.exhaustive = true;
+    if blocked == 0 {
+        r.goals_missing.push("a case in which the stalled connection's own task ends up waiting for its socket".into());
+    }
+    if maxb < 8 * 1024 {
+        r.goals_missing.push("a reply burst above 8 KiB to the stalled connection".into());
+    }
+    if let Some(c) = cases.get(cases.len() / 2) {
+        r.samples.push(serde_json::json!({"cap": c.cap, "line": short(&c.line)}));
+    }
+    r.extra = serde_json::json!({"cases": n, "cases_in_which_the_stalled_task_waited_for_its_socket": blocked, "largest_reply_burst_bytes": maxb});
+    r.wall_s = t0.elapsed().as_secs_f64();
+    r
+}
+
+pub fn replay_fun(scenario: &str, input: &serde_json::Value) -> Vec<Finding> {
+    if scenario == "fun:c05-stalled-reader" {
+        let c = StallCase { cap: input["cap"].as_u64().unwrap_or(4096) as usize, line: input["line"].as_str().unwrap_or("").to_string() };
+        return stall_case_findings(&c).0;
+    }
+    vec![]
+}
+
 pub fn plan(quick: bool) -> Plan {
     let mut parts = vec![];
+    parts.push(Part::Custom("fun:c05-stalled-reader".into(), Box::new(move || stall_part(quick))));
     parts.push(Part::Bfs(Box::new(ghost(!quick)), lim(if quick { 6 } else { 7 }, 2_000_000, if quick { 20.0 } else { 600.0 })));
     for sess in SESSIONS {
         let depth = match sess {
@@ -653,7 +879,7 @@ pub fn plan(quick: bool) -> Plan {
     Plan {
         property: "C05".into(),
         rule: "bounded-exhaustive line grammar (43 verbs x arity 0..max+1 x parameter-shape menus; raw byte payloads; EOF variants) sent through the real connection loop in 10 session states; thorough adds the full shape menus and all ordered pairs of a 77-line core alphabet in 4 states. A case is non-trivial/distinct when it reaches a distinct canonical server state. Oracle: no connection task aborts, no connection is closed unless the protocol ends it, sender and bystanders still get PING answered and bystanders still exchange a channel message".into(),
-        assumptions: vec!["a panic inside a connection future is what tokio turns into an aborted task".into(), "duplex buffers are always drained (no back-pressure)".into()],
+        assumptions: vec!["a panic inside a connection future is what tokio turns into an aborted task".into(), "back-pressure is explored for one stalled reader with socket buffers of 2.5 - 64 KiB (fun:c05-stalled-reader); everywhere else the harness reads every connection after every step".into()],
         parts,
     }
 }
